@@ -384,6 +384,13 @@ def worker(specs_json, wseed, probe=False):
                 floor = 0 if (lb is not None and lb >= 0) else -(1 << 63)      # unsigned C representation
                 out_root = [v for v in sorted(set(cand)) if not _contains(true_set, v) and _contains(parents, v)
                             and floor <= v <= (1 << 63) - 1][:8]
+            if what == "size":
+                # a test point is a string of that many octets: keep it encodable (the 64K fragmentation point included)
+                dropped = [x for x in in_root + out_root if x > 70000]
+                if dropped:
+                    acc.excluded["size test points above 70000 (not materialised)"] += len(dropped)
+                in_root = [x for x in in_root if x <= 70000]
+                out_root = [x for x in out_root if x <= 70000]
             for v, is_root in [(x, True) for x in in_root] + [(x, False) for x in out_root]:
                 if known_adds:
                     # the merged root changes the layout of every value of the type
